@@ -1,5 +1,10 @@
 """C19 - character-matrix row/column operations select exactly what they name; terminate.
 
+Object level: besides the rows as values the harness observes the IDENTITY of every row object (id(), numbered by
+first observation within a history) and compares it with the row ids of the object-level model
+coq/Model/C19RowHeap.v up to an injective renaming (ocase_ok), so that an operation storing an object it was handed
+(instead of a copy) or one object for several taxa is a disagreement even while all values are still equal.
+
 Correspondence: random (and, in the thorough tier, exhaustive small-scope) operation histories
 over several CharacterMatrix objects are run through the REAL methods of
 dendropy.datamodel.charmatrixmodel and through the Coq model coq/Model/C19Model.v (vm_compute).
@@ -16,7 +21,7 @@ import time
 from dv import core
 from dv.core import cz, cbool, clist, copt, cpair
 
-HEADER = ("From DV Require Import Model.PyPrims Model.C19Model.\n"
+HEADER = ("From DV Require Import Model.PyPrims Model.C19Model Model.C19RowHeap.\n"
           "From Coq Require Import ZArith. Open Scope Z_scope.")
 
 SCRATCH = "/var/tmp/dv-C19"
@@ -29,6 +34,7 @@ LABELS = ["a", "A", "b", "a_002", "A_002", "a_003", "b_002", "locus000", "locus0
           "locus000_002", "x y"]
 
 _hangs = [0]
+
 
 def _cls(dtype):
     import dendropy
@@ -137,8 +143,28 @@ def gen_case(rng, maxops=8, maxtax=6):
     def IDX():
         return [rng.randint(-1, 14) for _ in range(rng.choice([0, 1, 2, 3, 4, 6, 9]))]
 
+    def MK():
+        # a matrix and a Taxon/index/label key; mostly a taxon of the matrix's own namespace
+        return M(), (["KTax", rng.choice(alltax)] if alltax and rng.random() < 0.7 else KEY())
+
     for _ in range(rng.randint(1, maxops)):
         r = rng.random()
+        if r < 0.14:
+            # in-place operations on a row object obtained by m[key].  (The two ways a CALLER can put one row
+            # object under two slots - m[k] = o[t] with a row object of the matrix's own type, copy.copy(m) - are not
+            # operations of the property; the model has them as OSetItemRow / OCopy only to state, in
+            # Props/C19.v, that they are the only steps that break the separation of row objects.)
+            q = rng.random()
+            if q < 0.28:
+                m, ky = MK(); ops.append(["RowAppend", m, ky, rng.randrange(k)])
+            elif q < 0.52:
+                m, ky = MK(); ops.append(["RowExtend", m, ky, CELLS()])
+            elif q < 0.78:
+                m, ky = MK(); ops.append(["RowSet", m, ky, rng.randint(-4, 5), rng.randrange(k)])
+            else:
+                m, ky = MK(); ops.append(["RowDel", m, ky, rng.randint(-4, 5)])
+            continue
+        r = (r - 0.14) / 0.86
         if r < 0.20:
             ids = [M() for _ in range(rng.choice([0, 1, 2, 2, 2, 3, 3, 4]))]
             if ids and rng.random() < 0.3:
@@ -231,6 +257,8 @@ class Env:
         # a taxon that belongs to no namespace at all
         self.taxon[7] = self.taxon.get(7) or dendropy.Taxon("t7")
         self.tid[id(self.taxon[7])] = 7
+        self.rowids = {}     # id(row object) -> small integer, by first observation in this history
+        self.keep = []       # observed row objects stay alive, so that no id() is reused within a history
         self.ms = []
         for im in case["init"]:
             m = self.cls(taxon_namespace=self.ns[im["ns"]], label=im["label"])
@@ -239,6 +267,13 @@ class Env:
             for lab, idx in im["subs"]:
                 m.new_character_subset(label=lab, character_indices=idx)
             self.ms.append(m)
+
+    def rid(self, seq):
+        k = id(seq)
+        if k not in self.rowids:
+            self.rowids[k] = len(self.rowids)
+            self.keep.append(seq)
+        return self.rowids[k]
 
     def cells(self, m, cs):
         if self.dtype in VALUED:
@@ -258,15 +293,17 @@ class Env:
 
     def view(self, m):
         rows = []
+        ids = []
         aligned = True
         for t, seq in m._taxon_sequence_map.items():
             rows.append([self.tid[id(t)], [self.cell_obs(c) for c in seq._character_values]])
+            ids.append([self.tid[id(t)], self.rid(seq)])
             aligned = aligned and len(seq._character_values) == len(seq._character_types) == len(seq._character_annotations)
         subs = [[key, sorted(cs.character_indices)] for key, cs in m.character_subsets.items()]
         sublab = all(cs.label == key for key, cs in m.character_subsets.items())
         pub = [[self.tid[id(t)], s.symbols_as_list()] for t, s in m.items()]
         it = [self.tid[id(t)] for t in m]
-        return {"ns": self.nsid.get(id(m.taxon_namespace), -1), "label": m.label, "rows": rows, "subs": subs,
+        return {"ns": self.nsid.get(id(m.taxon_namespace), -1), "label": m.label, "rows": rows, "subs": subs, "ids": ids,
                 "pub": pub, "iter": it, "aligned": aligned, "sublab": sublab, "cls": type(m).__name__,
                 "nslen": len(m.taxon_namespace)}
 
@@ -406,6 +443,21 @@ def apply_op(env, op):
         return ["ORow", [env.cell_obs(c) for c in s]]
     if n == "NewSubset":
         m.new_character_subset(label=op[2], character_indices=list(op[3])); return ["OUnit"]
+    if n == "RowAppend":
+        m[env.key(op[2])].append(env.cell(m, op[3])); return ["OUnit"]
+    if n == "RowExtend":
+        m[env.key(op[2])].extend(env.cells(m, op[3])); return ["OUnit"]
+    if n == "RowSet":
+        m[env.key(op[2])][op[3]] = env.cell(m, op[4]); return ["OUnit"]
+    if n == "RowDel":
+        del m[env.key(op[2])][op[3]]; return ["OUnit"]
+    if n == "SetItemRow":
+        o = env.get(op[3])
+        m[env.key(op[2])] = o[env.taxon[op[4]]]; return ["OUnit"]
+    if n == "Copy":
+        import copy
+        env.ms.append(copy.copy(m))
+        return ["ONew", len(env.ms) - 1]
     raise RuntimeError("unknown op %s" % n)
 
 
@@ -487,10 +539,16 @@ def oracle_step(case, op, out, before, after, env_syms):
                     "matrix %d rows %s" % (n, op[1], before[op[1]]["rows"]), "extend-self-hang")
         return ("%s did not terminate: %s on matrices %s" % (n, op, [(i, before[i]["label"]) for i in (op[1] if isinstance(op[1], list) else [op[1]]) if i < len(before)]),
                 "hang:" + n)
-    recv = None if n in ("Concat", "ConcatRead", "ExportIdx", "ExportSub") else op[1]
+    recv = None if n in ("Concat", "ConcatRead", "ExportIdx", "ExportSub", "Copy") else op[1]
     core_keys = ("ns", "label", "rows", "subs", "cls")
     for j, b in enumerate(before):
         if j == recv:
+            continue
+        if n == "SetItemRow" and j == op[3]:
+            # the right-hand side o[t] is the caller's own __getitem__, documented to create a missing row
+            want = dict(b, rows=b["rows"] + ([[op[4], []]] if op[4] not in _rows(b) and op[4] in nss.get(b["ns"], []) else []))
+            if any(after[j][k] != want[k] for k in core_keys):
+                return ("m[k] = o[t] (%s) changed the source matrix %d: %s -> %s" % (op, j, b["rows"], after[j]["rows"]), "setitem-row-source")
             continue
         a = after[j]
         if any(a[k] != b[k] for k in core_keys):
@@ -568,8 +626,17 @@ def oracle_step(case, op, out, before, after, env_syms):
         if new["label"] != b["label"] or new["ns"] != b["ns"] or new["cls"] != b["cls"] or new["subs"]:
             return ("export %s changed label/namespace/class or kept subsets" % (op,), "export-meta")
         return None
+    if n == "Copy":
+        if err:
+            return ("copy.copy raised %s" % err, "copy-error")
+        new = after[out[1]]
+        if new["rows"] != b["rows"] or new["ns"] != b["ns"] or new["label"] != b["label"] or new["cls"] != b["cls"]:
+            return ("copy.copy %s: %s is not a copy of %s" % (op, new["rows"], b["rows"]), "copy-rows")
+        return None
     a = after[op[1]]
     rb, ra = _rows(b), _rows(a)
+    if n == "SetItemRow" and op[3] == op[1] and op[4] not in rb and op[4] in T:
+        rb[op[4]] = []          # m[k] = m[t]: the right-hand side created the row first
     if a["ns"] != b["ns"] or a["label"] != b["label"] or a["cls"] != b["cls"]:
         return ("%s changed namespace/label/class of its matrix" % (op,), "meta-changed:" + n)
     if n != "NewSubset" and a["subs"] != b["subs"]:
@@ -645,6 +712,50 @@ def oracle_step(case, op, out, before, after, env_syms):
             return None if (err == "ValueErr" and ra == rb) else ("new_sequence %s on %s gave %s" % (op, b["rows"], out), "new-sequence-refusal")
         want = dict(rb); want[t] = op[3]
         return None if (ra == want and out == ["ORow", op[3]]) else ("new_sequence %s: %s -> %s" % (op, b["rows"], a["rows"]), "new-sequence")
+    if n in ("RowAppend", "RowExtend", "RowSet", "RowDel", "SetItemRow"):
+        # only the named row of the named matrix changes (m[key] creates the row when there is none)
+        k = op[2]
+        if k[0] == "KIdx":
+            t, experr = (T[k[1]] if abs(k[1]) < len(T) else None), "IndexErr"
+        elif k[0] == "KLab":
+            t, experr = (k[1] if k[1] in T else None), "KeyErr"
+        else:
+            t, experr = (k[1] if k[1] in T else None), "ValueErr"
+        if n == "SetItemRow":
+            src = dict(_rows(before[op[3]]))
+            if op[3] == op[1]:
+                src = dict(rb)
+            To = nss.get(before[op[3]]["ns"], [])
+            if op[4] not in src:
+                if op[4] not in To:
+                    return None if (err == "ValueErr" and ra == rb) else ("%s: o[t] for a taxon outside o's namespace gave %s" % (op, out), "setitem-row-bad-source")
+                src[op[4]] = []
+            if t is None:
+                return None if (err == experr and ra == rb) else ("%s with a key outside the namespace gave %s" % (op, out), "item-bad-key")
+            want = dict(rb); want[t] = src[op[4]]
+            return None if (ra == want and not err) else ("%s: %s -> %s (%s), expected %s" % (op, b["rows"], a["rows"], out, want), "setitem-row")
+        if t is None:
+            return None if (err == experr and ra == rb) else ("%s with a key outside the namespace gave %s" % (op, out), "item-bad-key")
+        want = dict(rb)
+        r = list(want.get(t, []))
+        experr = None
+        if n == "RowAppend":
+            r = r + [op[3]]
+        elif n == "RowExtend":
+            r = r + list(op[3])
+        else:
+            i = op[3]
+            if -len(r) <= i < len(r):
+                if n == "RowSet":
+                    r[i] = op[4]
+                else:
+                    del r[i]
+            else:
+                experr = "IndexErr"
+        want[t] = r
+        if ra != want or err != experr:
+            return ("%s: rows %s -> %s (%s); only row %s was named, expected %s (%s)" % (op, b["rows"], a["rows"], out, t, want, experr), "row-inplace:" + n)
+        return None
     if n in ("SetItem", "GetItem"):
         k = op[2]
         if k[0] == "KIdx":
@@ -672,11 +783,53 @@ def oracle_step(case, op, out, before, after, env_syms):
     return None
 
 
+def _slots(state):
+    """row object id -> [(matrix, taxon)] of a state"""
+    res = {}
+    for j, v in enumerate(state):
+        for t, r in v["ids"]:
+            res.setdefault(r, []).append((j, t))
+    return res
+
+
+def shared_blame(op, before, after):
+    """the row object whose sharing explains a violation at this step: an object held by >= 2 slots before the
+    step whose content changed during the step (an in-place operation reached it through one slot and every
+    other slot shows the change), or - for an export - an object under two taxa of the exported matrix (the deep
+    copy keeps that sharing and the column deletion visits the row twice)"""
+    sl = _slots(before)
+    if op[0] in ("ExportIdx", "ExportSub"):
+        for r, ss in sorted(sl.items()):
+            if len([1 for j, _t in ss if j == op[1]]) >= 2:
+                return r
+        return None
+    cont_b = {(j, t): c for j, v in enumerate(before) for t, c in v["rows"]}
+    cont_a = {(j, t): c for j, v in enumerate(after) for t, c in v["rows"]}
+    ids_a = {(j, t): r for j, v in enumerate(after) for t, r in v["ids"]}
+    for r, ss in sorted(sl.items()):
+        if len(ss) >= 2 and len([1 for x in ss if ids_a.get(x) == r and cont_a.get(x) != cont_b[x]]) >= 2:
+            return r
+    return None
+
+
 def oracle(case, obs):
+    creator = {}        # shared row object -> the operation after which it was first held by two slots
+    for v in [obs["init"]]:
+        for r, ss in _slots(v).items():
+            if len(ss) >= 2:
+                creator[r] = ("init", None)
     for op, out, before, after in normalise(case, obs):
         v = oracle_step(case, op, out, before, after, None)
         if v:
+            r = shared_blame(op, before, after) if after is not None else None
+            if r is not None and r in creator:
+                return ("row object %d is held by the slots (matrix, taxon) %s since %s; then: %s"
+                        % (r, _slots(before)[r], creator[r], v[0]), "row-object-shared:" + creator[r][0])
             return v
+        if after is not None:
+            for r, ss in _slots(after).items():
+                if len(ss) >= 2 and r not in creator:
+                    creator[r] = (op[0], op)
     return None
 
 
@@ -762,6 +915,34 @@ def c_op(op, ix):
     raise ValueError(op)
 
 
+BASE_OPS = ("Concat", "ConcatRead", "ExportIdx", "ExportSub", "Fill", "FillTaxa", "Pack", "AddSeqs", "ReplaceSeqs",
+            "UpdateSeqs", "ExtendSeqs", "ExtendMatrix", "RemoveSeqs", "DiscardSeqs", "KeepSeqs", "NewSeq", "SetItem",
+            "GetItem", "NewSubset")
+
+
+def c_oop(op, ix):
+    n = op[0]
+    if n in BASE_OPS:
+        return "(OBase %s)" % c_op(op, ix)
+    if n == "RowAppend":
+        return "(ORowAppend %s %s %s)" % (cz(op[1]), c_key(op[2]), cz(op[3]))
+    if n == "RowExtend":
+        return "(ORowExtend %s %s %s)" % (cz(op[1]), c_key(op[2]), zs(op[3]))
+    if n == "RowSet":
+        return "(ORowSet %s %s %s %s)" % (cz(op[1]), c_key(op[2]), cz(op[3]), cz(op[4]))
+    if n == "RowDel":
+        return "(ORowDel %s %s %s)" % (cz(op[1]), c_key(op[2]), cz(op[3]))
+    if n == "SetItemRow":
+        return "(OSetItemRow %s %s %s %s)" % (cz(op[1]), c_key(op[2]), cz(op[3]), cz(op[4]))
+    if n == "Copy":
+        return "(OCopy %s)" % cz(op[1])
+    raise ValueError(op)
+
+
+def c_ids(v):
+    return clist([cpair(cz(t), cz(r)) for t, r in v["ids"]])
+
+
 def c_out(o):
     if o[0] == "OUnit":
         return "OUnit"
@@ -782,19 +963,30 @@ def to_coq(case, obs):
     loc = clist([cpair(cz(i), cz(ix[s])) for i, s in enumerate(locus)])
     nss = clist([cpair(cz(n), zs(T)) for n, T in case["nss"]])
     init = clist([cpair(cz(i), c_matrix(v, ix)) for i, v in enumerate(obs["init"])])
-    ops = []
-    exp = []
-    for op, out, before, after in normalise(case, obs):
-        ops.append(c_op(op, ix))
+    steps = normalise(case, obs)
+    allbase = all(op[0] in BASE_OPS for op, _o, _b, _a in steps)
+    ops, exp, oops, oexp = [], [], [], []
+    for op, out, before, after in steps:
+        oops.append(c_oop(op, ix))
+        if allbase:
+            ops.append(c_op(op, ix))
         if after is None:
             exp.append(cpair(c_out(out), "[]"))
+            oexp.append("(%s, [], [])" % c_out(out))
             continue
-        changed = []
+        changed, idchanged = [], []
         for j, a in enumerate(after):
             if j >= len(before) or any(a[k] != before[j][k] for k in CORE):
                 changed.append(cpair(cz(j), c_matrix(a, ix)))
+            if j >= len(before) or a["ids"] != before[j]["ids"]:
+                idchanged.append(cpair(cz(j), c_ids(a)))
         exp.append(cpair(c_out(out), clist(changed)))
-    return "(mkCase %s %s %s %s %s %s %s)" % (lower, suf, loc, nss, init, clist(ops), clist(exp))
+        oexp.append("(%s, %s, %s)" % (c_out(out), clist(changed), clist(idchanged)))
+    if not allbase:
+        exp = []
+    base = "(mkCase %s %s %s %s %s %s %s)" % (lower, suf, loc, nss, init, clist(ops), clist(exp))
+    init_ids = clist([cpair(cz(i), c_ids(v)) for i, v in enumerate(obs["init"])])
+    return "(mkOCase %s %s %s %s %s)" % (base, cbool(case["dtype"] == "generic"), init_ids, clist(oops), clist(oexp))
 
 
 def nontrivial(case, obs):
@@ -868,6 +1060,17 @@ def probe_cases():
                            ["UpdateSeqs", 0, 1]):
                 res.append({"dtype": dtype, "nss": [[0, [0, 1, 2, 3]]], "init": [part, rest],
                             "ops": [first, second, ["ExportIdx", 0, [0, 3]], ["Fill", 0, 0, None, True]]})
+    # in-place row operations after fill_taxa / pack
+    for dtype in ("generic", "dna", "continuous", "standard"):
+        k = ncell(dtype)
+        p0 = dict(part, rows=[[t, [c % k for c in cs]] for t, cs in part["rows"]])
+        p1 = dict(rest, rows=[[t, [c % k for c in cs]] for t, cs in rest["rows"]])
+        W = {"dtype": dtype, "nss": [[0, [0, 1, 2, 3]]], "init": [p0, p1]}
+        for first in (["FillTaxa", 0], ["Pack", 0, 0, None, True]):
+            res.append(dict(W, ops=[first, ["RowAppend", 0, ["KTax", 2], 1], ["RowExtend", 0, ["KIdx", 3], [1, 0]],
+                                    ["RowSet", 0, ["KTax", 2], -1, 0], ["RowDel", 0, ["KTax", 3], 0], ["RowDel", 0, ["KTax", 3], 7],
+                                    ["ExportIdx", 0, [0, 1]]]))
+        res.append(dict(W, ops=[["RowAppend", 1, ["KTax", 0], 1], ["RowSet", 1, ["KTax", 1], 0, 1], ["GetItem", 1, ["KTax", 1]]]))
     full = {"ns": 0, "label": "a", "rows": [[1, [0, 1]], [0, [1, 1]]], "subs": []}
     res.append({"dtype": "dna", "nss": [[0, [0, 1]]], "init": [full, dict(full, label="A")],
                 "ops": [["Concat", [0, 1, 0, 0]], ["ExportSub", 2, "a_003"]]})
@@ -910,7 +1113,11 @@ def run(tier, seed, replay=None):
         "trusted there: the statement compiler py/dv/gen_charmatrix.py and the Python semantics stated in coq/Model/C19Prims.v",
         "labels are ids into a finite pool; str.lower, '%s_%03d' and 'locus%03d' are uninterpreted functions in the theorems "
         "(only hypothesis, where stated: the suffix is injective in its counter up to case)",
-        "sequence objects are never shared between matrices by the modelled methods (each copies); the harness never stores one sequence object in two matrices",
+        "row OBJECTS: coq/Model/C19RowHeap.v models the store of CharacterDataSequence objects and which object every operation stores / copies / "
+        "mutates in place; the harness observes id() of every row object after every step (canonicalised per history, observed objects are kept alive) "
+        "and the model's row ids must agree with them up to ONE injective renaming threaded through the whole history; "
+        "a caller can still put one row object under two slots himself (m[k] = o[t] with a row of the matrix's own sequence type, copy.copy(m)): "
+        "these are not operations of the property and not in the op alphabet; the model has them (OSetItemRow / OCopy) to state that they are the only steps breaking the separation",
         "taxon namespaces are not edited during a history; the fasta reader behind concatenate_from_streams/paths is taken to deliver what was written (C09/C13)",
     ]
     if replay:
@@ -921,13 +1128,16 @@ def run(tier, seed, replay=None):
         v = oracle(case, obs)
         print("history:", json.dumps(summary(case, obs))[:3000])
         print("oracle:", v)
-        bad, errors = core.run_cases("C19", HEADER, "case_ok", [to_coq(case, obs)], tag="_replay")
+        bad, errors = core.run_cases("C19", HEADER, "ocase_ok", [to_coq(case, obs)], tag="_replay")
         print("model agrees with implementation:", not bad and not errors)
         return 1 if (v or bad or errors) else 0
     ok = core.proof_stage(ctx, ["Props/C19.vo"], gen_needed=("__none__",))
     # translator tie: Gen/CharMatrix.v (regenerated from the current charmatrixmodel.py) = the model
     ok_gen = core.proof_stage(ctx, ["Props/C19Gen.vo"], props_file="Props/C19Gen.v", gen_needed=("CharMatrix",))
-    if not (ok and ok_gen):
+    # object level: Gen/CharMatrixObj.v (which row object __setitem__ / fill_taxa / add_ / replace_ / update_sequences
+    # store, where constructor calls are evaluated) = the object-level model Model/C19RowHeap.v
+    ok_obj = core.proof_stage(ctx, ["Props/C19Obj.vo"], props_file="Props/C19Obj.v", gen_needed=("CharMatrix", "CharMatrixObj"))
+    if not (ok and ok_gen and ok_obj):
         core.broken_proof(ctx, search)
     n = 900 if tier == "quick" else 8000
     cases = probe_cases() + [gen_case(ctx.rng, 8 if tier == "quick" else 12) for _ in range(n)]
@@ -940,11 +1150,12 @@ def run(tier, seed, replay=None):
         count_case(ctx, case, obs)
         return obs
 
-    core.corr_stage(ctx, cases, observe_counted, to_coq, HEADER, "case_ok", oracle=oracle,
-                    show_fn="case_run", nontrivial=nontrivial, search=search, shard=250,
+    core.corr_stage(ctx, cases, observe_counted, to_coq, HEADER, "ocase_ok", oracle=oracle,
+                    show_fn="ocase_run", nontrivial=nontrivial, search=search, shard=250,
                     sample_fn=lambda c, o: {"dtype": c["dtype"], "nss": c["nss"], "history": summary(c, o)[:4]})
     return ctx.finish(level="proof",
-                      rule="random histories (<=8 quick / <=12 thorough ops) over 1-4 initial matrices of one of 8 data types, "
+                      rule="random histories (<=8 quick / <=12 thorough ops; 23 op kinds incl. the in-place row operations m[k].append/extend/[i]=v/del [i]) "
+                           "over 1-4 initial matrices of one of 8 data types or the plain CharacterMatrix, "
                            "0-6 taxa x 0-12 columns, two namespaces, labels with case variants and pre-taken '<label>_00N'/'locusNNN' names, "
                            "matrix lists with repeated labels/objects, partial taxon overlap, ragged rows; thorough adds every 1- and 2-op history "
                            "over a 37-op alphabet on a fixed 4-matrix world for 2 data types; non-trivial = >=2 executed ops and some successful "
